@@ -199,10 +199,12 @@ Definition idle_below_low (cfg : config) (s : astate) (cl : list (nat * nat)) : 
   if acount s <=? c_low cfg then is_nil cl else true.
 
 (* P4: otherwise at most low-watermark connections are left among the eligible
-       peers (a manager with a zero watermark is disabled by configuration) *)
+       peers (a manager with a zero watermark is disabled by configuration; a
+       negative watermark - NewConnManager accepts any int - is read as 0: no
+       eligible connection may be left) *)
 Definition reaches_low (cfg : config) (s : astate) (cl : list (nat * nat)) : bool :=
   if disabled cfg || (acount s <=? c_low cfg) then true
-  else remaining_eligible cfg s cl <=? c_low cfg.
+  else remaining_eligible cfg s cl <=? Z.max 0 (c_low cfg).
 
 Definition trim_prop (cfg : config) (s : astate) (cl : list (nat * nat)) : bool :=
   closes_only_eligible cfg s cl && lowest_first cfg s cl
@@ -263,7 +265,7 @@ Definition trim_ok (cfg : config) (s : astate) (cl : list (nat * nat)) : bool :=
     (* lowest first, non-strict version is what a sorted prefix gives: a kept
        eligible peer is never strictly below a closed one *)
     && lowest_first cfg s cl
-    && (remaining_eligible cfg s cl <=? c_low cfg).
+    && (remaining_eligible cfg s cl <=? Z.max 0 (c_low cfg)).
 
 (* ---- observations ---------------------------------------------------------------- *)
 Record obs := mkObs {
